@@ -173,7 +173,7 @@ int run_scan(const Args& a) {
         std::vector<std::vector<WOp>> hist(n);
         std::vector<std::vector<ScanRec>> srec(S);
         uint64_t round_seed = seed * 7368787 + rd;
-        ctl::Profile prof = make_profile(r, delays ? static_cast<int>(r.below(6)) : 0);
+        ctl::Profile prof = make_profile(r, delays ? static_cast<int>(r.below(7)) : 0);
         ctl::g_profile.store(delays ? &prof : nullptr);
         std::atomic<int> writers_left{W};
         uint64_t round_start = stamp();
